@@ -108,8 +108,8 @@ static tdma_sched_cb *cb_of(const char *s)
 	return cb_table[v];
 }
 
-#define MAXTOK 8192
-#define MAXSET 600
+#define MAXTOK (1 << 18)
+#define MAXSET 8192
 
 /* one op: tok[0..n) ; returns 0 if malformed */
 static int do_op(char **tok, int n)
@@ -193,7 +193,7 @@ static int do_op(char **tok, int n)
 
 int main(void)
 {
-	static char line[1 << 20];
+	static char line[1 << 22];
 	static char *tok[MAXTOK];
 	while (fgets(line, sizeof(line), stdin)) {
 		int n = 0, i, start, ok = 1, first = 1;
